@@ -78,18 +78,12 @@ def _completed(b, batch_size, mts):
 
 def body_bucket(n, batch_size, rate4, has_mts, has_exp, has_mbe, drop, sort, l0, l1, l2, l3, l4, mts, exp, mbe):
     rt.pin_real_floats()
+    # l_i >= 1, mts >= 1, exp >= 1, mbe >= 1 are `pre:` lines of the condition (with the pinned float model CrossHair
+    # reports an exhausted tree as "not confirmed" when such constraints are imposed from inside the body)
     lens = rt.mk(n, [l0, l1, l2, l3, l4])
-    for L in lens:
-        rt.assume(L >= 1)
     mts = mts if has_mts else None
     exp = exp if has_exp else None
     mbe = mbe if has_mbe else None
-    if mts is not None:
-        rt.assume(mts >= 1)
-    if exp is not None:
-        rt.assume(exp >= 1)
-    if mbe is not None:
-        rt.assume(mbe >= 1)
     batches, marks, worst = _run(lens, batch_size, rate4, mts, exp, mbe, drop, sort)
     rt.reached()
     seen = [0] * n
@@ -203,6 +197,7 @@ def _gconds(tier, seed):
 
 FAMILIES = [
     Family('bucket', body_bucket, ['n', 'batch_size', 'rate4', 'has_mts', 'has_exp', 'has_mbe', 'drop', 'sort'], LP + [('mts', 'int'), ('exp', 'int'), ('mbe', 'int')], _conds,
+           pre=lambda sel: ['l0 >= 1 and l1 >= 1 and l2 >= 1 and l3 >= 1 and l4 >= 1', 'mts >= 1 and exp >= 1 and mbe >= 1'],
            timeout=dict(quick=90, thorough=900), desc='DynamicTimeSeriesBucket: conservation, size, padding, max_total_size, expiration, max_buffered_examples, drop mode, sort'),
     Family('generic', body_generic, ['n', 'batch_size', 'has_exp', 'has_mbe', 'drop'], LP + [('exp', 'int'), ('mbe', 'int')], _gconds, timeout=dict(quick=90, thorough=600),
            desc='DynamicBucketDataset.__iter__ with an integer-only bucket class'),
